@@ -10,4 +10,34 @@ META = {
         "note": "Trusted: Coq kernel; harness; abstraction of names to numbers; one GenericSyncMap call = one critical section (checked by lock traces); wall-clock polling of WaitForReady is observed not proved.",
         "technique": "Coq proof (induction over op list) + model/implementation correspondence by vm_compute",
     },
+    "C01": {
+        "text": "Coq theorem C01_identity: for every history and every scan order, each emitted (login, event) pair is justified by a processed LOGIN record of the event's session whose pid is the login's pid and by a delivered login; under the uniqueness discipline that login is the only one. Proved by a history-relative invariant (induction over operations). The model is tied to sessiontracker.go by per-step simulation: after every call of the real correlator its dumped state, writes and result must equal the model's for some scan choice.",
+        "design_ref": "DESIGN.md 6/C01",
+        "note": "Trusted: Coq kernel; harness and state-dump accessor (overlay); abstraction of identity to login ids; time bracketing.",
+        "technique": "Coq proof (history-relative invariant) + per-step model/implementation simulation by vm_compute",
+    },
+    "C02": {
+        "text": "Coq theorems C02_refines_machine (the correlator's outputs for a session equal those of a five-phase specification machine, by a refinement proof over all operations and states) and C02_exactly_once_in_order (at every prefix the emitted events of the session are a prefix, in processing order, of its events from the LOGIN record on, empty until both halves are known and reaching at least the disposal record afterwards). Same correspondence as C01 plus the once-in-order oracle on the implementation.",
+        "design_ref": "DESIGN.md 6/C02",
+        "note": "Trusted: as C01. Hypotheses allowed_run/keeps_run are the uniqueness and no-discard discipline, stated explicitly in Props/C02.v and shown satisfiable by examples.",
+        "technique": "Coq proof (refinement to a per-session specification machine + invariant over histories) + per-step simulation",
+    },
+    "C04": {
+        "text": "Coq theorems C04_silence_step (for every prefix and next operation, anything written belongs to a numeric session with a processed LOGIN record and a delivered login of that record's pid; no well-formedness assumed), C04_untracked_ignored, C04_no_session. Correspondence as C01 with mixed correlated/uncorrelated histories.",
+        "design_ref": "DESIGN.md 6/C04",
+        "note": "Trusted: as C01. That aucoalesce renders ses=4294967295 as 'unset' is library behaviour exercised at parser level (C14/C15 harness), not proved.",
+        "technique": "Coq proof (invariant, step form for every prefix) + per-step simulation",
+    },
+    "C09": {
+        "text": "Coq theorems C09_disposal_releases (the step that writes a session's disposal record, directly or from the hold queue, removes the session), C09_no_rebind (a login never changes a session that has one), C09_stray_ignored, C09_reuse (from any reachable state where no half of (s,p) waits, the new session's events are emitted once, in order, with the login arriving after that point). Correspondence as C01 with PID-reuse chains.",
+        "design_ref": "DESIGN.md 6/C09",
+        "note": "Trusted: as C01. The reuse theorem's precondition is a state predicate; Example C09_example_clean shows it holds after a completed earlier session of the same pid.",
+        "technique": "Coq proof (case analysis on steps + refinement from an arbitrary reachable state) + per-step simulation",
+    },
+    "C16": {
+        "text": "Coq theorems C16_clean_sessions_exact / C16_clean_logins_exact (cleanup keeps exactly correlated sessions and pending halves not older than the cut-off), C16_interval (interval = 1 min, ticker period and cut-off expression, generated from auditd.go), C16_window_keeps / C16_window_drops (a half survives every tick <= a+I, is dropped by a tick in (a+I, a+2I], and is then never emitted). Correspondence as C01 with cleanup calls at cut-offs between arrivals.",
+        "design_ref": "DESIGN.md 6/C16",
+        "note": "Trusted: as C01, plus go2v's reading of the constant and of Read's ticker/cut-off expressions. Real-time behaviour of time.Ticker is not modelled.",
+        "technique": "Coq proof (arithmetic over Z + specification machine) on generated constants + per-step simulation",
+    },
 }
